@@ -22,8 +22,9 @@ EXPLANATION = (
     "(M1) and keeps the objects whose id() it contains alive (M2); the coerced-default memo is "
     "valid only for the type it was computed for (M1).")
 UNVERIFIED = [
-    "everything that connects these points: recursion through object/list completion, execute_fields ordering, async paths, incremental delivery",
-    "collect_fields_impl's selection loop, should_include_node (skip/include precedence), get_argument_values' loop",
+    "everything that connects these points: recursion through object/list completion, execute_fields ordering, async paths, incremental delivery "
+    "(sync part: BOUNDED stand-in props/C02_ref.py, a reference executor compared with execute_sync on generated requests; never counted as proved)",
+    "get_argument_values' loop (assumed contract); collect_fields_impl beyond its per-iteration clauses and its termination measure",
     "equality of the assembled response with the specification's; repeated execution only as far as the memo obligations",
 ]
 TRUSTED = []
@@ -105,6 +106,32 @@ A.query_type.fields['f'].resolve = res; B.query_type.fields['f'].resolve = res
 graphql_sync(B, '{f}'); graphql_sync(A, '{f}'); graphql_sync(B, '{f}')
 assert seen == [{'x': {'a': 1, 'b': 2}}, {'x': {'a': 1}}, {'x': {'a': 1, 'b': 2}}], seen
 '''
+
+
+def bounded_checks(tier, seed, pid="C02", variants="range(6)"):
+    """What connects the verified decision points (recursion through object / list completion,
+    ordering, null propagation, fragments and directives in CollectFields) is not under contract:
+    a reference executor written from the specification stands in, bounded (props/C02_ref.py)."""
+    import json
+    code = ("import json\nfrom props.C02_ref import search\n"
+            f"r = search(seed={int(seed)}, thorough={tier == 'thorough'!r}, variants={variants})\n"
+            "print('BOUNDED ' + json.dumps(r, default=str))\nprint('EXECUTED', search.executed if r is None else '-')")
+    rc, outp = run_native(code, timeout=1500)
+    res, ok = None, False
+    for line in outp.splitlines():
+        if line.startswith("BOUNDED "):
+            res, ok = json.loads(line[8:]), True
+    if not ok:
+        raise RuntimeError(outp[-600:])
+    return [{"id": f"{pid}/bounded/reference-executor",
+             "function": "execute_sync (Executor.execute_operation .. complete_value, collect_fields)",
+             "tool": "reference ExecuteSelectionSet / CollectFields / CompleteValue / error propagation vs execute_sync, native",
+             "bound": "one schema; validated documents { P { A [B [C]] } } over 27 + 16 selection atoms (aliases, "
+                      "arguments and defaults, @skip/@include literal and variable, inline fragments, spreads), all "
+                      "single atoms and ordered pairs + 400 seeded triples per parent; data variants " + variants + " "
+                      "(conforming, nulls, wrong kinds, raising resolvers); "
+                      + ("every request" if tier == "thorough" else "every 2nd request") + "; sync only, no @defer/@stream",
+             "failed": res is not None, "input": res, "output": outp[-1500:]}]
 
 
 def native_checks(tier, seed):
